@@ -59,3 +59,26 @@ def is_returns_drift(exc):
     if isinstance(exc, AttributeError) and "nothing" in str(exc) and "Maybe" in str(exc):
         return True
     return False
+
+
+@contextlib.contextmanager
+def no_forall_drop():
+    """repaired twin for the 'quantifier dropped' mechanism: ForallFormula.substitute_expressions without the shortcut that
+    returns the bare inner formula when the bound variable no longer occurs in it"""
+    import isla.language as L
+    from isla.derivation_tree import DerivationTree
+    orig = L.ForallFormula.substitute_expressions
+
+    def substitute_expressions(self, subst_map):
+        new_in_variable = self.in_variable
+        if self.in_variable in subst_map:
+            new_in_variable = subst_map[new_in_variable]
+        elif isinstance(new_in_variable, DerivationTree):
+            new_in_variable = new_in_variable.substitute(subst_map)
+        return L.ForallFormula(self.bound_variable, new_in_variable, self.inner_formula.substitute_expressions(subst_map),
+                               self.bind_expression, self.already_matched, id=self.id)
+    L.ForallFormula.substitute_expressions = substitute_expressions
+    try:
+        yield
+    finally:
+        L.ForallFormula.substitute_expressions = orig
